@@ -37,7 +37,9 @@ def rand_quote(rng):
 def gen_trace(seed, n_calls=45):
     """Returns the JSON-able trace dict {id, t0, quote, fee, ev: [...]}."""
     rng = random.Random(seed)
-    t0 = (DAY0 + rng.randint(0, 6)) * 1440 + rng.choice([0, 870, 600])
+    # winter (UTC-5 in New York) or summer (26 weeks later, same weekdays, daylight-saving time in New York): exchange hours
+    # are 14:30-21:00 UTC all year
+    t0 = (DAY0 + (182 if seed % 2 else 0) + rng.randint(0, 6)) * 1440 + rng.choice([0, 870, 600])
     quotes = dict((a, rand_quote(rng)) for a in ASSETS)
     fee = rand_fee(rng)
     ob = Observer()
